@@ -294,7 +294,15 @@ fn check_pair(sender: &Node, s: &CopySpec, r: &CopySpec, tally: &mut Tally, viol
                 continue;
             }
         };
-        let bytes = real::real_encode(&reply);
+        let bytes = match guarded(|| real::real_encode(&reply)) {
+            Ok(b) => b,
+            Err(p) => {
+                viols.push(Viol { prop: "C07", what: format!("the sender's delta cannot be serialized (panic): {p}"), sig: format!("panic:{}", short_loc(&p)), replay: case_json("honest", s, r, k) });
+                viols.push(Viol { prop: "C04", what: format!("the sender's delta cannot be serialized (panic): {p}"), sig: format!("panic:{}", short_loc(&p)), replay: case_json("honest", s, r, k) });
+                viols.push(Viol { prop: "C14", what: format!("the sender's delta cannot be serialized (panic): {p}"), sig: format!("panic:{}", short_loc(&p)), replay: case_json("honest", s, r, k) });
+                continue;
+            }
+        };
         let dec = match codec::decode(&bytes) {
             Ok(d) => d,
             Err(e) => {
@@ -733,7 +741,13 @@ pub fn two_member_sweep(vmax: u64, want: &[&str], deadline: Instant) -> Part {
                             break;
                         }
                     };
-                    let bytes = real::real_encode(&reply);
+                    let bytes = match guarded(|| real::real_encode(&reply)) {
+                        Ok(b) => b,
+                        Err(p) => {
+                            viols.push(Viol { prop: "C14", what: format!("the sender's delta cannot be serialized (panic): {p}"), sig: format!("panic:{}", short_loc(&p)), replay });
+                            break;
+                        }
+                    };
                     let Ok(dec) = codec::decode(&bytes) else {
                         viols.push(Viol { prop: "C08", what: "independent decoder rejects the sender's reply".into(), sig: "decode-disagreement".into(), replay });
                         break;
